@@ -2735,6 +2735,10 @@ class Partitions(Expr):
         return self.frame._meta
 
     def _divisions(self):
+        partitions = list(self.partitions)
+        if any(a >= b for a, b in zip(partitions, partitions[1:])):
+            # reordered or repeated partitions do not have sorted index ranges
+            return (None,) * (len(partitions) + 1)
         divisions = []
         for part in self.partitions:
             divisions.append(self.frame.divisions[part])
@@ -2807,6 +2811,10 @@ class PartitionsFiltered(Expr):
             return full_divisions
 
         # Specific case: Specific partitions were selected
+        partitions = list(self._partitions)
+        if any(a >= b for a, b in zip(partitions, partitions[1:])):
+            # reordered or repeated partitions do not have sorted index ranges
+            return (None,) * (len(partitions) + 1)
         new_divisions = []
         for part in self._partitions:
             new_divisions.append(full_divisions[part])
